@@ -66,6 +66,21 @@ Theorem C04_sender_never_idle_with_work : forall ops, cur (run ops) = None -> se
 Proof. exact sender_never_idle_with_work. Qed.
 Print Assumptions C04_sender_never_idle_with_work.
 
+(* ... also when the later calls are issued from the sender's OWN stack, in the middle of the serialization of a call
+   (application code that a slicer runs -- Copyable.getStateToCopy, the body of a streaming slicer before / between / after its
+   chunks and pauses -- invokes callRemote; RootSlicer.send then only enqueues, lib/Order.v issue_nested / release_nested): the
+   connection is left in exactly the state that the same calls, issued one after the other from ordinary code, leave it in.  So
+   a history with such calls IS a history `run ops`, and every theorem of this file applies to it. *)
+Theorem C04_reentrant_issue_is_history : forall ops st f inner, cur (run ops) = None ->
+  issue_nested st f inner (run ops) = run (ops ++ Issue st f :: issue_ops inner).
+Proof. exact reentrant_issue_is_history. Qed.
+Print Assumptions C04_reentrant_issue_is_history.
+
+Theorem C04_reentrant_issue_after_pause_is_history : forall ops inner p, cur (run ops) = Some p ->
+  release_nested inner (run ops) = run (ops ++ StallRelease :: issue_ops inner).
+Proof. exact reentrant_issue_after_pause_is_history. Qed.
+Print Assumptions C04_reentrant_issue_after_pause_is_history.
+
 (* progress of the receiver: a turn of the eventual queue that holds a doNextCall enters the ready head *)
 Theorem C04_turn_enters_ready_head : forall s c rest,
   lost s = false -> waiting s = [] -> inq s = (c, Ready) :: rest -> evq s <> [] -> is_late c = false ->
